@@ -17,7 +17,8 @@ def named_contract(n, fw="sylvia", with_reply=True):
           Method("query", "qu", (Arg("a", "Option<%s>" % n),)),
           Method("sudo", "su", (Arg("a", n),)),
           Method("migrate", "mig", (Arg("a", n),))]
-    c = Contract(methods=tuple(ms), generics=((n, ""),), where=("%s: %s" % (n, b),), concrete=("u32",), entry_points="generics<u32>")
+    c = Contract(methods=tuple(ms), generics=((n, ""),), where=("%s: %s" % (n, b),), concrete=("u32",), entry_points="generics<u32>",
+                 new="pub const fn new() -> Self { Self { _p: std::marker::PhantomData } }")
     if with_reply:
         rms = [fam_reply.RM(fn="on_s", handlers=("x",), on="success", data="raw,opt"), fam_reply.RM(fn="alw", on="always")]
         c.methods = c.methods + tuple(fam_reply.to_method(r) for r in rms)
